@@ -243,6 +243,25 @@ def runModel (st : St) (op impl : List String) : Option (St × String) :=
   | _ => none
 
 def step (st : St) (op impl : List String) : St × Verdict :=
+  -- the websocket reader (op `readerprobe`): every message is decoded on its own
+  if op.head? = some "readerprobe" then
+    match impl with
+    | ["ok"] => (st, .ok)
+    | [r] =>
+      if r.startsWith "env:" then (st, .ok)
+      else if r.startsWith "bad:" then
+        (st, .oracle s!"C15: a message handed on by the connection's reader is not the message that was sent: fields that the sender omitted (dest, noecho, kind, id, username, …) carry the values of an earlier message of the connection, so a broadcast can be delivered to the earlier private recipient only and claimed identities leak between messages: {r}")
+      else (st, .mismatch "ok")
+    | _ => (st, .mismatch "ok")
+  else if op.head? = some "slowmember" then
+    match impl with
+    | ["ok"] => (st, .ok)
+    | [r] =>
+      if r.startsWith "bad:" then
+        (st, .oracle s!"C15: broadcast messages did not all reach a member whose outgoing queue was momentarily full (the sender must wait for room or for the member's writer to die, not drop): {r}")
+      else (st, .mismatch "ok")
+    | _ => (st, .mismatch "ok")
+  else
   match runModel st op impl with
   | none => (st, .badop "unparseable op")
   | some (st', model) =>
